@@ -38,6 +38,24 @@ Inductive op :=
 (** result of a call: the returned member's unique_id / None, or the exception class *)
 Inductive res := ROk (member : option str) | RExc (code : Z).
 
+(** The code at the pinned commit violates the property in several independent
+    places (see Properties/C13.v, the [_refuted] theorems).  For each of them a
+    minimal patch is proposed (notes/proposed_fixes/C13-<n>.diff); the model
+    carries one boolean per patch: [false] = the pinned code, [true] = the code
+    with that patch applied.  The harness determines the flags of the tree it is
+    run on from witness histories and then requires the model with these flags to
+    agree with the implementation on every case. *)
+Record variant := mkV {
+  v_exact : bool;       (* C13-1: drop_not_completed matches the file name exactly, not by endswith *)
+  v_sfx : bool;         (* C13-2: the suffix is replaced as a dotted component only, not as a substring *)
+  v_dropfirst : bool;   (* C13-3: write() retires the not-completed record before writing *)
+  v_rodrop : bool;      (* C13-4: drop_not_completed refuses in read-only mode *)
+  v_presence : bool;    (* C13-5: _write no longer skips an existing id (w mode overwrites); member lists without duplicates *)
+  v_sqlupd : bool }.    (* C13-6: sqlite UPDATE also sets is_completed; member caches follow *)
+
+Definition pinned : variant := mkV false false false false false false.
+Definition repaired : variant := mkV true true true true true true.
+
 (** literals *)
 Definition s_json : str := [106;115;111;110].
 Definition s_log : str := [108;111;103].
@@ -162,55 +180,78 @@ Definition ds_logs (s : dstore) : list str := map (fun n => s_logs_prefix ++ n) 
 Definition special_suffix (item : str) : bool := endswith item s_dot_log || endswith item s_dot_json.
 
 (** the identifier [__contains__] really looks up *)
-Definition contains_key (sfx item : str) : str :=
+Definition contains_key (v : variant) (sfx item : str) : str :=
   if special_suffix item then item
-  else if contains item sfx then item
+  else if (if v_sfx v then endswith item (ch_dot :: sfx) else contains item sfx) then item
   else item ++ ch_dot :: sfx.
 
 (** [DataStoreDirectory.__contains__] *)
-Definition contains_item (s : dstore) (item : str) : dstore * bool :=
-  let k := contains_key (d_suffix s) item in
+Definition contains_item (v : variant) (s : dstore) (item : str) : dstore * bool :=
+  let k := contains_key v (d_suffix s) item in
   let (s1, ms) := members s in
   (s1, mem_str k ms).
 
 (** [_check_writable]: Some exception code / None *)
-Definition check_writable (s : dstore) (uid : str) : dstore * option Z :=
+Definition check_writable (v : variant) (s : dstore) (uid : str) : dstore * option Z :=
   match d_mode s with
   | MR => (s, Some E_IO)
   | m =>
-      let (s1, b) := contains_item s uid in
+      let (s1, b) := contains_item v s uid in
       if b && mode_eqb m MA then (s1, Some E_IO) else (s1, None)
   end.
+
+(** [re.sub(rf"[.]{old}(?=[.]|$)", "." + new, s)]: every dotted component equal to
+    [old], except the first one, becomes [new] *)
+Fixpoint join_dot (l : list str) : str :=
+  match l with
+  | [] => []
+  | [x] => x
+  | x :: t => x ++ ch_dot :: join_dot t
+  end.
+
+Definition replace_comp (s old new : str) : str :=
+  match split_on ch_dot s with
+  | [] => s
+  | h :: t => join_dot (h :: map (fun p => if str_eqb p old then new else p) t)
+  end.
+
+Definition subst_suffix (v : variant) (s old new : str) : str :=
+  if v_sfx v then replace_comp s old new else replace_all s old new.
 
 (** ------------------------------------------------------------------ _write *)
 
 Inductive subdir := SRoot | SNC | SLogs.
 
 (** the file name [_write] ends up with, and the compression suffix it computed *)
-Definition write_name (self_sfx suffix uid : str) : str * option str :=
+Definition write_name (v : variant) (self_sfx suffix uid : str) : str * option str :=
   let '(sfx, cmp) := get_format_suffixes uid in
   let '(uid1, cmp1) :=
     if opt_str_eqb sfx (Some suffix) then (uid, cmp)
     else let u := path_stem (path_name uid) ++ ch_dot :: suffix in (u, snd (get_format_suffixes u)) in
   let uid2 :=
-    if nonempty self_sfx && negb (str_eqb self_sfx suffix) then replace_all uid1 self_sfx suffix else uid1 in
+    if nonempty self_sfx && negb (str_eqb self_sfx suffix) then subst_suffix v uid1 self_sfx suffix else uid1 in
   (uid2, cmp1).
 
 (** name of the md5 side file written for a member file *)
-Definition md5_write_name (suffix fname : str) : str := replace_all fname suffix s_txt.
+Definition md5_write_name (v : variant) (suffix fname : str) : str := subst_suffix v fname suffix s_txt.
 
 Definition E_Unsupported : Z := 99.
 
-Definition write_ (s : dstore) (sub : subdir) (uid suffix data : str) : dstore * res :=
-  let (s1, e) := check_writable s uid in
+Definition subdir_prefix (sub : subdir) : str :=
+  match sub with SRoot => [] | SNC => s_nc_prefix | SLogs => s_logs_prefix end.
+
+Definition write_ (v : variant) (s : dstore) (sub : subdir) (uid suffix data : str) : dstore * res :=
+  let (s1, e) := check_writable v s uid in
   match e with
   | Some c => (s1, RExc c)
   | None =>
       if negb (nonempty suffix) then (s1, RExc E_Other)          (* assert suffix *)
       else
-        let '(fname, cmp) := write_name (d_suffix s1) suffix uid in
+        let '(fname, cmp) := write_name v (d_suffix s1) suffix uid in
+        (* pinned: [if suffix != "log" and unique_id in self: return None];  C13-5: these two lines are gone *)
         let (s2, present) :=
-          if str_eqb suffix s_log then (s1, false) else contains_item s1 fname in
+          if str_eqb suffix s_log || v_presence v then (s1, false)
+          else contains_item v s1 fname in
         if present then (s2, ROk None)
         else
           match cmp with
@@ -223,12 +264,12 @@ Definition write_ (s : dstore) (sub : subdir) (uid suffix data : str) : dstore *
                   | None => (s2, RExc E_IO)
                   | Some m =>
                       let s3 := with_nc s2 (Some (fm_set m fname data)) in
-                      (with_md5 s3 (fm_set (d_md5 s3) (md5_write_name suffix fname) data),
+                      (with_md5 s3 (fm_set (d_md5 s3) (md5_write_name v suffix fname) data),
                        ROk (Some (s_nc_prefix ++ fname)))
                   end
               | SRoot =>
                   let s3 := with_root s2 (fm_set (d_root s2) fname data) in
-                  (with_md5 s3 (fm_set (d_md5 s3) (md5_write_name suffix fname) data), ROk (Some fname))
+                  (with_md5 s3 (fm_set (d_md5 s3) (md5_write_name v suffix fname) data), ROk (Some fname))
               end
           end
   end.
@@ -240,11 +281,12 @@ Definition drop_pattern (sfx uid : str) : str :=
   let u := replace_all uid (ch_dot :: sfx) [] in
   match u with [] => [] | _ => u ++ s_dot_json end.
 
-Fixpoint drop_loop (pat : str) (todo : list str) (s : dstore) : dstore * option Z :=
+Fixpoint drop_loop (v : variant) (pat : str) (todo : list str) (s : dstore) : dstore * option Z :=
   match todo with
   | [] => (s, None)
   | m :: rest =>
-      if nonempty pat && negb (endswith m pat) then drop_loop pat rest s
+      if nonempty pat && negb (if v_exact v then str_eqb (path_name m) pat else endswith m pat)
+      then drop_loop v pat rest s
       else
         let name := path_name m in
         match d_nc s with
@@ -256,17 +298,18 @@ Fixpoint drop_loop (pat : str) (todo : list str) (s : dstore) : dstore * option 
               if fm_mem (d_md5 s1) md5n then
                 let s2 := with_md5 s1 (fm_del (d_md5 s1) md5n) in
                 let (s3, l) := nc_prop s2 in                        (* self.not_completed.remove(m) *)
-                if mem_str m l then drop_loop pat rest (with_ncache s3 (remove_first m l))
+                if mem_str m l then drop_loop v pat rest (with_ncache s3 (remove_first m l))
                 else (s3, Some E_Value)
               else (s1, Some E_IO)                                 (* md5_file.unlink(): FileNotFoundError *)
             else (s, Some E_IO)
         end
   end.
 
-Definition drop_nc (s : dstore) (uid : str) : dstore * option Z :=
+Definition drop_nc (v : variant) (s : dstore) (uid : str) : dstore * option Z :=
+  if v_rodrop v && mode_eqb (d_mode s) MR then (s, Some E_IO) else
   let pat := drop_pattern (d_suffix s) uid in
   let (s1, l) := nc_prop s in
-  let (s2, e) := drop_loop pat l s1 in
+  let (s2, e) := drop_loop v pat l s1 in
   match e with
   | Some c => (s2, Some c)
   | None =>
@@ -283,17 +326,38 @@ Definition drop_nc (s : dstore) (uid : str) : dstore * option Z :=
 
 (** ------------------------------------------------------------------ public methods *)
 
-Definition ds_write (s : dstore) (uid data : str) : dstore * res :=
-  let (s1, r) := write_ s SRoot uid (d_suffix s) data in
+(** [self._completed.append(member)]; with C13-5 only when not already listed *)
+Definition cache_add (v : variant) (l : list str) (id : str) : list str :=
+  if v_presence v && mem_str id l then l else l ++ [id].
+
+Definition ds_write (v : variant) (s : dstore) (uid data : str) : dstore * res :=
+  if v_dropfirst v then
+    let (s0, e0) := check_writable v s uid in
+    match e0 with
+    | Some c => (s0, RExc c)
+    | None =>
+        let (s1, e) := drop_nc v s0 uid in
+        match e with
+        | Some c => (s1, RExc c)
+        | None =>
+            let (s2, r) := write_ v s1 SRoot uid (d_suffix s1) data in
+            match r with
+            | ROk (Some id) => (with_completed s2 (cache_add v (d_completed s2) id), r)
+            | _ => (s2, r)
+            end
+        end
+    end
+  else
+  let (s1, r) := write_ v s SRoot uid (d_suffix s) data in
   match r with
   | RExc _ => (s1, r)
   | ROk m =>
-      let (s2, e) := drop_nc s1 uid in
+      let (s2, e) := drop_nc v s1 uid in
       match e with
       | Some c => (s2, RExc c)
       | None =>
           match m with
-          | Some id => (with_completed s2 (d_completed s2 ++ [id]), r)
+          | Some id => (with_completed s2 (cache_add v (d_completed s2) id), r)
           | None => (s2, r)
           end
       end
@@ -302,28 +366,28 @@ Definition ds_write (s : dstore) (uid data : str) : dstore * res :=
 Definition mkdir_nc (s : dstore) : dstore :=
   match d_nc s with Some _ => s | None => with_nc s (Some []) end.
 
-Definition ds_write_nc (s : dstore) (uid data : str) : dstore * res :=
+Definition ds_write_nc (v : variant) (s : dstore) (uid data : str) : dstore * res :=
   let s0 := mkdir_nc s in                                           (* before any mode check *)
-  let (s1, r) := write_ s0 SNC uid s_json data in
+  let (s1, r) := write_ v s0 SNC uid s_json data in
   match r with
-  | ROk (Some id) => (with_ncache s1 (d_ncache s1 ++ [id]), r)
+  | ROk (Some id) => (with_ncache s1 (cache_add v (d_ncache s1) id), r)
   | _ => (s1, r)
   end.
 
-Definition ds_write_log (s : dstore) (uid data : str) : dstore * res :=
-  write_ s SLogs uid s_log data.
+Definition ds_write_log (v : variant) (s : dstore) (uid data : str) : dstore * res :=
+  write_ v s SLogs uid s_log data.
 
-Definition ds_drop (s : dstore) (uid : str) : dstore * res :=
-  let (s1, e) := drop_nc s uid in
+Definition ds_drop (v : variant) (s : dstore) (uid : str) : dstore * res :=
+  let (s1, e) := drop_nc v s uid in
   (s1, match e with Some c => RExc c | None => ROk None end).
 
-Definition ds_step (s : dstore) (o : op) : dstore * res :=
+Definition ds_step (v : variant) (s : dstore) (o : op) : dstore * res :=
   match o with
-  | OWrite id data => ds_write s id data
-  | OWriteNC id data => ds_write_nc s id data
-  | OWriteLog id data => ds_write_log s id data
-  | ODrop id => ds_drop s id
-  | ODropAll => ds_drop s []
+  | OWrite id data => ds_write v s id data
+  | OWriteNC id data => ds_write_nc v s id data
+  | OWriteLog id data => ds_write_log v s id data
+  | ODrop id => ds_drop v s id
+  | ODropAll => ds_drop v s []
   | OReopen m => (ds_reopen s m, ROk None)
   end.
 
